@@ -146,23 +146,22 @@ theorem rename_carries_both (d0 : Data) (ident name : Str) (hc : checkEdifIdenti
 /-!
 ### edif_reader_spec
 
-Full statement (C05, stretch goal of DESIGN §6), kept here for reference:
+Full statement (C05, stretch goal of DESIGN §6):
 
-    theorem edif_reader_spec (d : AbstractDesign) (hd : d.WF) :
-        ofSExp (renderAbstract d) = .ok (denote d)
+    theorem edif_reader_spec (d : ADesign) (h : d.wf = true) :
+        ∃ n, readEdif (renderText d) = .ok n ∧ view05 n = denote d
 
-for the abstract designs of the harness generator (random hierarchy, several libraries, array
-ports, instances referenced in any letter case, renames, typed properties, comments, nets as
-scalar nets / bit nets in any order with missing bits).
+It is PROVED for a first fragment in `Props/C05Denote.lean` (definitions in `Abstract.lean`): libraries,
+cells, ports (direction, array size, rename), instances whose viewRef / cellRef / libraryRef are
+spelled in any letter case with typed properties, scalar nets and bus-bit nets in any order with any
+bits missing, pin references in any letter case, the design construct.  Outside the fragment (covered
+by the correspondence check and by P on the implementation): keyword spellings, comments, status
+blocks, external libraries, properties on objects other than instances, instances after nets, a bit
+net whose identifier index differs from its name index, repeated bit nets.
 
-Proved: the NET part of it at cell level, on the reader's own `multibit_add_cable`
-(`nets_any_order` below), the reference part construct by construct (`member_index`,
-`member_index_instance`, `resolve_ci_*`), the token part (`readS_flatten`, C03.`lex_layout`).
-Missing for the full statement: a Lean `renderAbstract`/`denote` for the generator's designs and
-the assembly of ports, instances (with case-varied cellRef/libraryRef), properties, comments and
-status blocks across cells and libraries.  That assembly is proved for the WRITER's texts in
-C03.`edif_roundtrip_partial`; for arbitrary abstract designs it is covered by the correspondence
-check (model vs implementation on every generated text) and by P evaluated on the implementation.
+The theorems of this file are the construct-level statements it is assembled from: the NET part on the
+reader's own `multibit_add_cable` (`nets_any_order`), references construct by construct
+(`member_index`, `member_index_instance`, `resolve_ci_*`), tokens (`readS_flatten`, C03.`lex_layout`).
 -/
 
 /-- **edif_reader_spec_partial / nets_any_order** — for every well-formed list of nets of a cell
